@@ -90,10 +90,13 @@ func decodeHuffmanLargeLoop(state *inflate, output []byte, written int) (finalWr
 	var (
 		inputTemp   []byte
 		writtenTemp int
+		// first literal of a packed (multi-symbol) table entry, -1 otherwise
+		packedFirst int32
 	)
 
 	state.copyOverflowLength = 0
 	state.copyOverflowDistance = 0
+decode:
 	for state.phase == phaseHeaderDecoded {
 
 		// state.InLoad(0)
@@ -168,6 +171,10 @@ func decodeHuffmanLargeLoop(state *inflate, output []byte, written int) (finalWr
 
 				symCount = (nextSym >> largeSymCountOffset) & largeSymCountMask
 				nextLits = nextSym & largeShortSymMask
+				packedFirst = -1
+				if symCount > 1 {
+					packedFirst = int32(nextLits & 0xff)
+				}
 
 			} else {
 				bitMask := nextSym >> largeShortMaxLenOffset
@@ -184,6 +191,7 @@ func decodeHuffmanLargeLoop(state *inflate, output []byte, written int) (finalWr
 
 				symCount = 1
 				nextLits = nextSym & largeLongSymMask
+				packedFirst = -1
 			}
 
 		}
@@ -197,6 +205,25 @@ func decodeHuffmanLargeLoop(state *inflate, output []byte, written int) (finalWr
 			bits = bitsTemp
 			bitsLen = bitsLenTemp
 			input = inputTemp
+			if packedFirst >= 0 {
+				if n := int32(state.litCodeLength(uint32(packedFirst))); n > 0 && n <= bitsLen {
+					// The packed entry needs more bits than the input has left, but
+					// its first literal is complete: take that one alone, so that
+					// what is decoded from a given input does not depend on which
+					// table flavour the block happened to get.
+					bits >>= uint(n)
+					bitsLen -= n
+					if len(output) == written {
+						state.writeOverflowLits = packedFirst
+						state.writeOverflowLen = 1
+						err = errOutputOverflow
+						goto FINISH
+					}
+					output[written] = byte(packedFirst)
+					written++
+					continue decode
+				}
+			}
 			err = errEndInput
 			goto FINISH
 		}
@@ -339,6 +366,22 @@ func decodeHuffmanLargeLoop(state *inflate, output []byte, written int) (finalWr
 					written = writtenTemp
 					state.writeOverflowLits = 0
 					state.writeOverflowLen = 0
+					if packedFirst >= 0 {
+						if n := int32(state.litCodeLength(uint32(packedFirst))); n > 0 && n <= bitsLen {
+							// as above: literal(s) packed with a match whose distance is cut
+							bits >>= uint(n)
+							bitsLen -= n
+							if len(output) == written {
+								state.writeOverflowLits = packedFirst
+								state.writeOverflowLen = 1
+								err = errOutputOverflow
+								goto FINISH
+							}
+							output[written] = byte(packedFirst)
+							written++
+							continue decode
+						}
+					}
 					err = errEndInput
 					goto FINISH
 				}
